@@ -11,14 +11,17 @@ of f, unit normal = -grad/|grad|, gradient = finite-difference derivative, ray h
 sign change, support points maximal, bounding spheres containing).
 Known findings demonstrated on the real code: Brick::findNearestPoint / intersectsRay always throw; Sphere::findNearestPoint
 at the centre returns NaN; Ellipsoid::findNearestPoint at the centre returns the centre.
-Not modelled: ellipsoid (iterative), torus, smooth height map, triangle meshes, curvatures."""
+Ellipsoid (closed-form part, coq/C34/C34_el_*.v): modelled as an object with radii and cached curvatures; queried after
+construct / setRadii / copy sequences (EL queries and the ELSEARCH sweep), so that a stale cache shows.
+Not modelled: the ellipsoid's iterative nearest point and ray, curvatures away from the axis points, torus, smooth height map,
+triangle meshes."""
 import os, sys, math
 from vlib import *
 
-PROPS = ['Props/Properties_C34.v']
+PROPS = ['Props/Properties_C34.v', 'Props/Properties_C34_el.v']
 EXTRACT = '''From Coq Require Import Extraction ExtrOcamlBasic.
-Require Import Num Vec C34_Model.
-Extraction "c34model.ml" hs_nearest hs_ray sp_value sp_gradient sp_nearest sp_support sp_ray cy_value cy_gradient cy_nearest cy_ray bx_support bx_bsphere.
+Require Import Num Vec C34_Model C34_el_Model.
+Extraction "c34model.ml" el_run el_value el_gradient el_hessian el_support el_pointInDirection el_unitNormalAt el_bsphere el_curv el_radii el_axisCurvatures hs_nearest hs_ray sp_value sp_gradient sp_nearest sp_support sp_ray cy_value cy_gradient cy_nearest cy_ray bx_support bx_bsphere.
 '''
 def U(r, lo, hi): return r.uniform(lo, hi)
 def vec(r, s): return [r.uniform(-s, s) for _ in range(3)]
@@ -58,6 +61,17 @@ def gen(r, n):
         if r.random() < 0.2: d[r.randrange(3)] = 0.0
         if math.sqrt(sum(x * x for x in d)) > 1e-3: out.append(('BXS', h + d))
         out.append(('BXB', h))
+        # ellipsoid as an object: construct, then 0-3 further setRadii / copy operations, then one query
+        rr = lambda: [U(r, 0.3, 2.5) for _ in range(3)]
+        ops = [0] + rr()
+        nops = 1 + (i % 4); hist = 'construct'
+        for k in range(nops - 1):
+            if r.random() < 0.65: ops += [1] + rr(); hist += ',setRadii'
+            else: ops += [2, 0.0, 0.0, 0.0]; hist += ',copy'
+        kind = 1 + (i % 7)
+        q = [[], vec(r, 2.0), unit(r), vec(r, 2.0), vec(r, 2.0), [], [], [r.randrange(3), r.choice([-1.0, 1.0])]][kind]
+        if kind in (3, 4) and math.sqrt(sum(x * x for x in q)) < 0.05: q = [0.3, 0.1, 0.0]
+        out.append(('EL', [nops] + ops + [kind] + q))
     return out
 
 SIG = 2.0 ** -52 ** 1  # placeholder, replaced by the value the probe reports (SignificantReal is not needed by any query but HSR)
@@ -91,6 +105,7 @@ def run(ctx):
                 if k in ('SPR', 'CYR'): mlines.append(k + ' ' + fmt(nums[:4] + f[-3:]))          # the normalised direction the probe used
                 elif k == 'HSR': mlines.append(k + ' ' + fmt([sig] + nums[:3] + f[-3:]))
                 elif k in ('SPS',): mlines.append(k + ' ' + fmt(nums[:1] + f[-3:]))
+                elif k == 'EL' and int(nums[1 + 4 * int(nums[0])]) == 2: mlines.append(k + ' ' + fmt(nums[:-3] + f[-3:]))       # support query: the normalised direction the probe used
                 elif k == 'BXS': mlines.append(k + ' ' + fmt(nums[:3] + f[-3:]))
                 else: mlines.append(k + ' ' + fmt(nums))
             rc, o2, e2 = sh([drv], input='\n'.join(mlines) + '\n', timeout=900)
@@ -101,6 +116,11 @@ def run(ctx):
                 for (k, nums), a, b in zip(cases, l1, l2):
                     fa, fb = parse_floats(a), parse_floats(b)
                     if k in ('SPR', 'CYR', 'HSR', 'SPS', 'BXS'): fa = fa[:-3]
+                    if k == 'EL':
+                        kind = int(nums[1 + 4 * int(nums[0])]); hist['EL:kind%d:ops%d' % (kind, int(nums[0]))] = hist.get('EL:kind%d:ops%d' % (kind, int(nums[0])), 0) + 1
+                        if kind == 2: fa = fa[:-3]
+                        if kind == 5: fa = fa[3:]
+                        if kind == 7: fa = fa[:2]
                     if k == 'BXB': fa = fa[3:]
                     hist[k] = hist.get(k, 0) + 1
                     if k in ('SPR', 'CYR', 'HSR'):
@@ -115,13 +135,13 @@ def run(ctx):
                 ctx.extra['correspondence'] = {'queries': len(lines), 'disagreements': dis, 'by_kind': hist, 'rtol': 1e-9}
                 if first: ctx.broken.append(('correspondence:' + first[0], 'implementation and model differ: query=%s %s impl=%s model=%s' % first))
     # ---- implementation-only predicates (failing-input search), always
-    rc, out, err = sh([exe], input='SEARCH %d %d\n' % (ctx.seed % 1000003, 1500 if quick else 30000), timeout=1800)
+    rc, out, err = sh([exe], input='SEARCH %d %d\nELSEARCH %d %d\n' % (ctx.seed % 1000003, 1500 if quick else 30000, ctx.seed % 1000003, 2000 if quick else 40000), timeout=1800)
     fails = [l for l in out.split('\n') if l.startswith('FAIL')]; done = [l for l in out.split('\n') if l.startswith('DONE')]
-    ctx.extra['search'] = {'predicate_evaluations': int(done[0].split()[1]) if done else 0, 'failures': int(done[0].split()[2]) if done else -1}
-    if not done: ctx.broken.append(('search:C34', 'search did not finish: ' + (out + err)[-300:]))
+    ctx.extra['search'] = {'predicate_evaluations': sum(int(d.split()[1]) for d in done), 'failures': sum(int(d.split()[2]) for d in done) if len(done) == 2 else -1, 'ellipsoid_op_sequences': int(done[1].split()[1]) if len(done) == 2 else 0}
+    if len(done) != 2: ctx.broken.append(('search:C34', 'search did not finish: ' + (out + err)[-300:]))
     for f in fails[:1]:
         ctx.broken.append(('predicate:' + f.split()[1], f))
-        ctx.report('impl:' + f.split()[1], 'implementation violates a C34 predicate: ' + f, {'replay_cmd': 'echo "SEARCH %d 1500" | %s' % (ctx.seed % 1000003, exe), 'failing_input': f})
+        ctx.report('impl:' + f.split()[1], 'implementation violates a C34 predicate: ' + f, {'replay_cmd': 'printf "SEARCH %d 1500\\nELSEARCH %d 2000\\n" | %s' % (ctx.seed % 1000003, ctx.seed % 1000003, exe), 'failing_input': f})
     # ---- known findings (DESIGN 7.21), each demonstrated on the real code
     deg = ['SPN 1 0 0 0', 'ELN 1 2 3 0 0 0', 'BXN 1 1 1 2 0 0', 'BXR 1 1 1 3 0 0 -1 0 0']
     rc, out, err = sh([exe], input='\n'.join(deg) + '\n', timeout=60)
